@@ -627,8 +627,15 @@ def _ok_geo(G):
 def _blade_term(n):
     return 4 * N.ulp(mp.mpf(max(n, 1)) * HALF)
 
-def _cart_tol(scale, r_true, blades):
-    t = TOL * max(scale, mp.mpf(1)) + (64 * EPS + _blade_term(blades)) * scale     # 1e-10 absolute (angular snap: 1e-10 * scale)
+def _cart_tol(scale, r_true, blades, snapped=True):
+    """tolerance on a Cartesian vector computed by Geonum addition: 1e-10 absolute (the cancellation
+    threshold on magnitudes), rounding proportional to the operand scale (growing with the ulp of the
+    blade count expressed in radians), the 1e-10 rad boundary snap times the scale - only when the
+    result's remainder actually is 0 (every snap returns remainder 0) - and the sqrt(eps) loss under
+    near-total cancellation"""
+    t = TOL + (64 * EPS + 8 * mp.mpf('1e-15') + _blade_term(blades)) * scale
+    if snapped:
+        t += TOL * scale
     canc = min(4 * SQEPS * scale, 8 * EPS * scale * scale / max(r_true, mp.mpf('1e-320')))
     return t + canc + mp.mpf(5e-324) * 8
 
@@ -643,7 +650,7 @@ def cart_sum(vals, ra, rb, rs, sign):
     sx, sy = cart(s)
     scale = _scale(a, b)
     r = mp.sqrt(wx * wx + wy * wy)
-    tol = _cart_tol(scale, r, a[3] + b[3] + 2)
+    tol = _cart_tol(scale, r, a[3] + b[3] + 2, snapped=(v(s[2]) == 0))
     err = mp.sqrt((sx - wx) ** 2 + (sy - wy) ** 2)
     if err > tol:
         return 'cartesian value of the %s is off by %s (tolerance %s): got (%s, %s), expected (%s, %s)' % (
@@ -1362,3 +1369,16 @@ def shoelace(vals, rarea, rps):
     got = v(vals[rarea][1])
     if abs(got - want) > (16 * SQEPS + 8 * TOL) * scale * scale: return 'quadrilateral area %s, shoelace area %s' % (mp.nstr(got, 17), mp.nstr(want, 17))
     return None
+
+@pred
+def add_general_or_fast(vals, ra, rb, rs):
+    """blade history of a sum whatever path applies: identical angles keep the angle; otherwise the blade
+    is at least the sum of the operand blades (cancellation: exactly the sum) and at most 4 more"""
+    a, b, s = vals[ra], vals[rb], vals[rs]
+    m = _ok_geo(s)
+    if m: return m
+    if (a[2], a[3]) == (b[2], b[3]):
+        return None if (s[2], s[3]) == (a[2], a[3]) else 'identical angles but the sum has angle %r' % (_A(s),)
+    opposite = abs(a[3] - b[3]) == 2 and v(a[2]) == v(b[2])
+    if opposite: return add_opposite(vals, ra, rb, rs)
+    return add_general_blades(vals, ra, rb, rs)
